@@ -3,6 +3,7 @@ package sim
 import (
 	"encoding/json"
 	"fmt"
+	"io"
 	"os"
 	"path/filepath"
 	"runtime"
@@ -344,6 +345,7 @@ type BatchOpts struct {
 	ReplayDir string
 	KnownPath string
 	RunWall   time.Duration
+	DumpHashes io.Writer // debugging: one line per run
 }
 
 // RunBatch is the worker loop.
@@ -385,6 +387,9 @@ func RunBatch(o BatchOpts) int {
 			wd.Stop()
 		}
 		c := out.Ctx
+		if o.DumpHashes != nil {
+			fmt.Fprintf(o.DumpHashes, "%d %d %016x %d %s\n", idx, runSeed, c.Hash, c.Steps, p.Name)
+		}
 		res.Runs++
 		res.PerProfile[p.Name]++
 		res.Steps += c.Steps
